@@ -96,6 +96,10 @@ def shards(tier, seed):
     return rtdriver.shards(tier, seed)
 
 
+GEN_OPTIONS = {'zoneless': 0.2}      # fixed-offset tzinfo values: a zone with that offset at that instant, or ValueError
+NOT_JUDGED = ('dump-raises:ValueError',)
+
+
 def run_shard(spec, ctx):
     rtdriver.run_shard(_me, spec, ctx)
 
